@@ -263,6 +263,8 @@ def run(ctx):
         "spatial variants for dim 3 (rotation algebra is C12's); accuracy of quad / root",
         "IEEE rounding: theorems are over exact reals",
     ]
+    ctx.tie["derived quantities = functions of the current parameter state (C03_derived_from_current_state)"] = \
+        "hand model + correspondence on randomised assignment/read histories of one object (probe_history)"
     for k in ("derive/_init_subclass", "cor (17 classes)", "correlation/covariance/variogram", "axis/yadrenko/spatial/nugget variants",
               "calc_integral_scale closed forms", "integral_scale setter", "var_factor", "percentile curve", "default_arg_from_bounds"):
         ctx.tie[k] = "hand model + correspondence"
@@ -283,7 +285,7 @@ def run(ctx):
         if drv is not None:
             correspondence(ctx, rng, drv, state)
         t3 = time.time()
-        probes(ctx, rng)
+        probes(ctx, rng, drv)
         ctx.notes.append("wall seconds: proofs (incl. waiting for the build lock) %.0f, driver build %.0f, correspondence %.0f, probes %.0f"
                          % (t1 - t0, t2 - t1, t3 - t2, time.time() - t3))
     finally:
@@ -525,12 +527,159 @@ def viol(ctx, stage, what, case, key):
     ctx.violation("probe: " + stage, what, case, key=key)
 
 
-def probes(ctx, rng):
+def probes(ctx, rng, drv=None):
+    probe_history(ctx, rng, drv)
     probe_closed_forms(ctx, rng)
     probe_identities(ctx, rng)
     probe_user_subclasses(ctx, rng)
     probe_scales(ctx, rng)
     probe_variants(ctx, rng)
+
+
+
+# ----------------------------------------------------------------------------------------------- histories on ONE object
+HIST_LAGS = np.array([0.0, 0.05, 0.4, 1.0, 2.7])
+
+
+def hist_opt_value(name, arg, rng):
+    """a value of the optional argument that is admissible in every dimension 1-3"""
+    u = rng.uniform
+    if name == "Matern":
+        return float(rng.choice([0.5, 1.5, 5.0, 19.0, 25.0]))
+    if name == "Integral":
+        return float(u(0.1, 30.0))
+    if name == "Rational":
+        return float(u(0.6, 20.0))
+    if name == "SuperSpherical":
+        return float(u(1.0, 20.0))
+    if name == "JBessel":
+        return float(u(0.5, 10.0))
+    if name == "TPLSimple":
+        return float(u(2.0, 20.0))
+    if arg == "hurst":
+        return float(u(0.15, 0.95))
+    if arg == "len_low":
+        return float(rng.choice([0.0, 0.3, 2.0]))
+    return float(u(0.3, 2.0))       # alpha of Stable / TPLStable
+
+
+def hist_params(m):
+    d = dict(dim=int(m.dim), var=float(m.var), len_scale=float(m.len_scale), nugget=float(m.nugget), rescale=float(m.rescale),
+             anis=[float(a) for a in m.anis] or 1.0, angles=[float(a) for a in m.angles] or 0.0)
+    d.update({o: float(getattr(m, o)) for o in m.opt_arg})
+    return d
+
+
+def hist_observe(m, name, heavy):
+    """everything derived that a caller can read"""
+    r = HIST_LAGS * m.len_rescaled
+    with np.errstate(all="ignore"):
+        out = dict(len_rescaled=m.len_rescaled, len_scale_vec=m.len_scale_vec, sill=m.sill, var=m.var,
+                   correlation=m.correlation(r), covariance=m.covariance(r), variogram=m.variogram(r), cor=m.cor(HIST_LAGS),
+                   cov_nugget=m.cov_nugget(r), vario_nugget=m.vario_nugget(r))
+        if m.dim > 1:
+            out["vario_axis"] = m.vario_axis(r, 1)
+        if name in TPL:
+            out["var_factor"] = m.var_factor()
+            out["len_up"] = m.len_up
+        if heavy:
+            out["integral_scale"] = m.integral_scale
+            out["integral_scale_vec"] = m.integral_scale_vec
+            out["percentile_scale"] = m.percentile_scale(0.5)
+    return {k: np.atleast_1d(np.asarray(v, dtype=float)) for k, v in out.items()}
+
+
+def probe_history(ctx, rng, drv):
+    """one object, randomised sequence of assignments interleaved with reads of every derived quantity; after each step
+    the object must be indistinguishable from (a) a freshly constructed object with the same parameters and (b) the model
+    evaluated on the current parameters (theorem C03_derived_from_current_state)"""
+    import gstools as gs
+    nseq = 6 if ctx.tier == "thorough" else 2
+    nstep = 6 if ctx.tier == "thorough" else 4
+    for name, code, slot_names in CLASSES:
+        args = [a for a in slot_names if a is not None]
+        for si in range(nseq):
+            dim = int(rng.integers(1, 4))
+            opt = {a: hist_opt_value(name, a, rng) for a in args}
+            history = [("construct", dict(cls=name, dim=dim, var=1.3, len_scale=2.0, nugget=0.1, **opt))]
+            try:
+                m = getattr(gs, name)(dim=dim, var=1.3, len_scale=2.0, nugget=0.1, **opt)
+                hist_observe(m, name, True)          # first read (fills whatever the object may keep)
+            except Exception as e:
+                viol(ctx, "history", "constructor / first read raised %r" % e, dict(history=history), "history:exception")
+                continue
+            # quadrature / root finding of the slow classes only on some steps in the quick tier
+            for step in range(nstep):
+                kinds = ["var", "nugget", "len_scale", "rescale", "dim", "integral_scale"] + ["opt:" + a for a in args] * 2
+                if m.dim > 1:
+                    kinds += ["len_scale_list", "anis"]
+                kind = kinds[int(rng.integers(len(kinds)))]
+                if si == 0 and step == 0:          # every class: a shape argument (or dim) changes right after a read
+                    kind = "opt:" + args[0] if args else "dim"
+                if kind == "integral_scale" and name == "JBessel":
+                    kind = "len_scale"             # quad of the oscillating correlation: setter raises / is off (known finding)
+                val = None
+                try:
+                    with np.errstate(all="ignore"):
+                        if kind == "var":
+                            val = float(np.exp(rng.uniform(-2, 2))); m.var = val
+                        elif kind == "nugget":
+                            val = float(rng.choice([0.0, np.exp(rng.uniform(-3, 1))])); m.nugget = val
+                        elif kind == "len_scale":
+                            val = float(np.exp(rng.uniform(-1.5, 1.5))); m.len_scale = val
+                        elif kind == "len_scale_list":
+                            val = [float(np.exp(rng.uniform(-1.5, 1.5))) for _ in range(m.dim)]; m.len_scale = val
+                        elif kind == "anis":
+                            val = [float(np.exp(rng.uniform(-1, 1))) for _ in range(m.dim - 1)]; m.anis = val
+                        elif kind == "rescale":
+                            val = float(np.exp(rng.uniform(-1, 1))); m.rescale = val
+                        elif kind == "dim":
+                            val = int(rng.integers(1, 4)); m.dim = val
+                        elif kind == "integral_scale":
+                            val = float(np.exp(rng.uniform(-1, 1))); m.integral_scale = val
+                        else:
+                            a = kind[4:]
+                            val = hist_opt_value(name, a, rng); setattr(m, a, val)
+                    history.append((kind, val))
+                except ValueError as e:
+                    # documented refusal (bounds, integral scale not settable); the code assigns before it checks, so the
+                    # object is not required to be usable afterwards: the history ends here
+                    history.append((kind, val, "ValueError: %s" % e))
+                    break
+                heavy = ctx.tier == "thorough" or code <= 5 or name in COMPACT or step % 2 == 0
+                try:
+                    got = hist_observe(m, name, heavy)
+                    par = hist_params(m)
+                    fresh = getattr(gs, name)(**par)
+                    want = hist_observe(fresh, name, heavy)
+                except Exception as e:
+                    viol(ctx, "history", "%s: reading derived quantities after the history raised %r" % (name, e), dict(history=history), "history:exception")
+                    break
+                ctx.count(("history", name, si, step, kind), n=len(got), hist=dict(stage="probe:history", cls=name, op=kind.split(":")[0]))
+                scale = float(m.var + m.nugget)
+                bad = [k for k in got if not (C.close(got[k], want[k], rtol=TOL, atol=1e-300, scale=max(scale, 1e-300))
+                                              or C.close(got[k], want[k], rtol=TOL, atol=1e-300))]
+                if bad:
+                    k = bad[0]
+                    viol(ctx, "history", "%s: %s read after step %d (%s) differs from a freshly constructed model with the same parameters: %s vs %s"
+                         % (name, k, step + 1, kind, got[k].tolist(), want[k].tolist()),
+                         dict(history=history, parameters=par, observable=k, stepped=got[k].tolist(), fresh=want[k].tolist()), "history:%s" % k)
+                    break
+                # (b) the model on the current parameters
+                if drv is not None:
+                    p = slots(name, par)
+                    pre = [("z", code), p[0], p[1], p[2], ("z", par["dim"]), par["var"], par["len_scale"], par["nugget"], par["rescale"]]
+                    mod = np.array([drv.call("funcs", *pre, float(x)) for x in HIST_LAGS * m.len_rescaled], dtype=float)
+                    okm = (C.close(mod[:, 0], got["correlation"], rtol=TOL, atol=1e-300, scale=1.0)
+                           and C.close(mod[:, 1], got["covariance"], rtol=TOL, atol=1e-300, scale=scale)
+                           and C.close(mod[:, 2], got["variogram"], rtol=TOL, atol=1e-300, scale=scale))
+                    if okm and code <= 5 and "integral_scale" in got:
+                        mi = drv.call("intscale", ("z", code), p[0], float(m.len_rescaled))
+                        okm = mi is not None and C.close([mi], got["integral_scale"], rtol=TOL)
+                    if not okm:
+                        viol(ctx, "history", "%s: values read after step %d (%s) differ from the model evaluated on the current parameters" % (name, step + 1, kind),
+                             dict(history=history, parameters=par, stepped={k: v.tolist() for k, v in got.items()}, model=mod.tolist()), "history:model")
+                        break
 
 
 def probe_closed_forms(ctx, rng):
